@@ -7,11 +7,16 @@ use crate::{
     next::NextChunk,
     ConcurrentIter, Next,
 };
+#[cfg(not(orx_concurrent_iter_verif))]
 use std::{
     cell::UnsafeCell,
     cmp::Ordering,
     sync::atomic::{self, AtomicBool},
 };
+#[cfg(orx_concurrent_iter_verif)]
+use crate::verif_hooks::{self as atomic, AtomicBool};
+#[cfg(orx_concurrent_iter_verif)]
+use std::{cell::UnsafeCell, cmp::Ordering};
 
 /// A regular `Iter: Iterator` ascended to the concurrent programs with use of atomics.
 ///
